@@ -979,7 +979,18 @@ class Engine:
         return ("ref", frame["cells"][p["l"]], tuple(self.eval_proj(st, frame, p)))
 
     def switch(self, st, frame, t, d):
-        """returns list of (state, target bb)"""
+        """returns list of (state, target bb); the failing arm of a debug_assert! is not followed: a debug assertion is an assumption of the code, compiled out of
+        the shipped binary, and its panic path is not a behaviour the rules have to account for"""
+        res = self._switch(st, frame, t, d)
+        body = frame["body"]
+
+        def dbg_fail(bb):
+            tt = body.blocks[bb]["term"]
+            return tt["k"] == "call" and tt.get("t") is None and any(str(x_).startswith("m:debug_assert") for x_ in (tt.get("exp") or []))
+        kept = [(s_, b_) for s_, b_ in res if not dbg_fail(b_)]
+        return kept if kept else res
+
+    def _switch(self, st, frame, t, d):
         targets = [(int(v), b) for v, b in t["targets"]]
         if d[0] == "bool":
             d = vint(1 if d[1] else 0)
